@@ -1,23 +1,33 @@
 package main
 
 import (
+	"archive/zip"
+	"bytes"
 	"fmt"
+	"io/fs"
 	"os"
 
-	"cuelang.org/go/cue/cuecontext"
-	"cuelang.org/go/cue/format"
-	cuejson "cuelang.org/go/encoding/json"
-	"cuelang.org/go/encoding/jsonschema"
+	"cuelang.org/go/mod/modzip"
+	"cuelang.org/go/mod/module"
 )
 
 func main() {
-	ctx := cuecontext.New()
-	e, _ := cuejson.Extract("schema.json", []byte(os.Args[1]))
-	f, err := jsonschema.Extract(ctx.BuildExpr(e), &jsonschema.Config{StrictFeatures: true, DefaultVersion: jsonschema.VersionDraft2020_12})
-	if err != nil {
-		fmt.Println("extract err", err)
-		return
+	var buf bytes.Buffer
+	zw := zip.NewWriter(&buf)
+	w, _ := zw.Create("cue.mod/module.cue")
+	w.Write([]byte("module: \"example.com/m@v0\"\nlanguage: version: \"v0.9.0\"\n"))
+	h := &zip.FileHeader{Name: "a:b", Method: zip.Deflate}
+	h.SetMode(fs.ModeDir | 0o755)
+	w, err := zw.CreateHeader(h)
+	fmt.Println("createheader", err)
+	w.Write([]byte("abc"))
+	zw.Close()
+	os.WriteFile("/tmp/t1/x.zip", buf.Bytes(), 0o644)
+	os.RemoveAll("/tmp/t1/xt")
+	mv := module.MustNewVersion("example.com/m@v0", "v0.1.0")
+	fmt.Println("unzip:", modzip.Unzip("/tmp/t1/xt", mv, "/tmp/t1/x.zip"))
+	zr, _ := zip.NewReader(bytes.NewReader(buf.Bytes()), int64(buf.Len()))
+	for _, f := range zr.File {
+		fmt.Println(f.Name, f.Mode(), f.Mode().IsDir())
 	}
-	b, _ := format.Node(f, format.Simplify())
-	fmt.Println(string(b))
 }
